@@ -526,9 +526,10 @@ func c10Strace(tmproot, spec string, prepare func(dir string)) ([]c10sev, string
 // ---------------------------------------------------------------- kind 2: concurrent histories
 
 type c10hev struct {
-	Load   bool  `json:"load"`
-	T0, T1 int64 `json:"t0"`
-	ID     int   `json:"id"`
+	Load bool  `json:"load"`
+	T0   int64 `json:"t0"`
+	T1   int64 `json:"t1"`
+	ID   int   `json:"id"`
 }
 
 // c10History: nW writer goroutines (+ nP writer child processes) and nR readers on one key.
